@@ -110,6 +110,10 @@ def _explore(body, facts, exits, depth=0, root=1):
                 continue
             if (ty.startswith("&mut") or ty.startswith("*mut")) and _derived_from_self(body, l, 0, root):
                 hits.append(i + 1)
+            elif "&mut " in ty and not ty.startswith("{closure@") and _derived_from_self(body, l, 0, root):
+                # a value that carries a `&mut` into the iterator's state (`Option<&mut Inner>` from `as_mut()`,
+                # handed to `and_then` / `map` / `unwrap`): the callee can write through it
+                hits.append(i + 1)
             elif ty.startswith("{closure@"):
                 sdc = body.single_def(l)
                 if sdc is not None and not hasattr(sdc[2], "callee") and sdc[2][0] == "agg" and sdc[2][1][0] == "closure" and \
